@@ -31,6 +31,10 @@ class Prog:
     def make(self, z, cls, a, u, rep='dec'):
         self.ops.append({'op': 'Make', 'z': z, 'cls': cls, 'a': nd(a), 'u': u or 'NONE', 'rep': rep})
 
+    def relabel(self, x, u, z, cls=None):
+        """Quantity(<the very amount object of register x>, unit u) -> z: two quantities sharing one amount object."""
+        self.ops.append({'op': 'Make', 'z': z, 'cls': cls or 'Quantity', 'a': [0, 1], 'u': u, 'rep': 'dec', 'share': x})
+
     def num(self, z, a, rep='dec'):
         self.ops.append({'op': 'Lit', 'k': 'n', 'a': nd(a), 'rep': rep, 'z': z})
 
